@@ -79,3 +79,28 @@ package metric
 //@   ghost@call Shutdown#* : prExpShut = prExpShut + 1
 //@   assert@return#* : prExpShut == 1
 //@   assert@store isShutdown#* : $val && prExpShut == 1
+
+// ======================================================================== C02 fan-out: a measurement reaches every pipeline exactly once
+//@ ghost var aggCalls int
+//@ func (i *int64Inst) aggregate(ctx context.Context, val int64, s attribute.Set)
+//@   prop C02
+//@   overflow assumed
+//@   unchecked frame the measure functions are unknown function values
+//@   requires i != nil && (forall j in 0 .. len(i.measures) : i.measures[j] != nil)
+//@   modifies ghost aggCalls
+//@   ghost@entry : aggCalls = 0
+//@   assert@call funcvalue#* : aggCalls == $k && $arg0 == ctx && $arg1 == val && $arg2 == s
+//@   ghost@call funcvalue#* : aggCalls = aggCalls + 1
+//@   assert@return#* : aggCalls == len(i.measures)
+//@   loop#1 invariant aggCalls == $k
+//@ func (i *float64Inst) aggregate(ctx context.Context, val float64, s attribute.Set)
+//@   prop C02
+//@   overflow assumed
+//@   unchecked frame the measure functions are unknown function values
+//@   requires i != nil && (forall j in 0 .. len(i.measures) : i.measures[j] != nil)
+//@   modifies ghost aggCalls
+//@   ghost@entry : aggCalls = 0
+//@   assert@call funcvalue#* : aggCalls == $k && $arg0 == ctx && $arg1 === val && $arg2 == s
+//@   ghost@call funcvalue#* : aggCalls = aggCalls + 1
+//@   assert@return#* : aggCalls == len(i.measures)
+//@   loop#1 invariant aggCalls == $k
